@@ -18,6 +18,9 @@ def main(tier, seed, replay):
         tr = k.validate_profile("core", 150)
         k.validate_profile("vis_black", 80)
         k.validate_profile("vis_white", 80)
+        k.validate_profile("rel", 100, monitors_only=True)
+        k.validate_profile("rel_kf", 150, monitors_only=True, known=("F17",))
+        k.validate_profile("kf_f17", 1, monitors_only=True, known=("F17",))
     else:
         k.model_check("MC_Struct", mc_consts(ops=5, **struct), inv, props, timeout=3000)
         k.model_check("MC_Struct2", mc_consts(ents=("e1", "e2"), ops=4, kinds=("spawn", "despawn", "insert", "remove"), ticks=2, idle=1), inv, props, timeout=3000)
@@ -31,6 +34,9 @@ def main(tier, seed, replay):
         k.validate_profile("core2", 1500)
         k.validate_profile("vis_black", 1500)
         k.validate_profile("vis_white", 1500)
+        k.validate_profile("rel", 2500, monitors_only=True)
+        k.validate_profile("rel_kf", 1500, monitors_only=True, known=("F17",))
+        k.validate_profile("kf_f17", 1, monitors_only=True, known=("F17",))
     k.selftest(tr)
     return k.finish(assumptions=[
         "the structure expected at the client's update tick is the recorded per-tick snapshot of the real server world restricted to what was visible to that client",
